@@ -1,16 +1,68 @@
-(** C15 -- placeholder until the soundness proofs are in (replaced below in the same session). *)
-From Coq Require Import List NArith Bool.
+(** C15 -- the Python-AST optimization pass never changes what generated code does.
+    Only statements, each closed by [exact], and Print Assumptions. *)
+From Coq Require Import List ZArith NArith Bool.
 Import ListNotations.
-From Verif Require Import C15.Tree C15.Opt C15.Allowed C15.Corr Gen.Tables.
+From Verif Require Import C15.Tree C15.Opt C15.Allowed C15.Corr C15.Sound C15.Refuted Gen.Tables.
+From Verif Require C01.Lisp C01.Gen C15.Sem.
+Local Open Scope N_scope.
 
-(** Obligations on the regenerated operator dictionaries: every entry maps an
-    operator-module function to the native operator with the reference meaning. *)
-Theorem C15_table_binops : forallb (fun p => match Allowed.assoc ref_binops (fst p) with Some op => N.eqb op (snd p) | None => false end) opt_binops = true.
+(** Obligations on the tables regenerated from optimizer.py on every run: each operator
+    dictionary entry maps an operator-module function to the native operator with the
+    reference meaning; the statement kinds that end a block and the droppable expression
+    kinds are exactly those the specification allows. *)
+Theorem C15_table_binops : forallb (fun p => ref_is ref_binops (fst p) (snd p)) opt_binops = true.
 Proof. vm_compute. reflexivity. Qed.
-Theorem C15_table_unaryops : forallb (fun p => match Allowed.assoc ref_unaryops (fst p) with Some op => N.eqb op (snd p) | None => false end) opt_unaryops = true.
+Theorem C15_table_unaryops : forallb (fun p => ref_is ref_unaryops (fst p) (snd p)) opt_unaryops = true.
 Proof. vm_compute. reflexivity. Qed.
-Theorem C15_table_compareops : forallb (fun p => match Allowed.assoc ref_compareops (fst p) with Some op => N.eqb op (snd p) | None => false end) opt_compareops = true.
+Theorem C15_table_compareops : forallb (fun p => ref_is ref_compareops (fst p) (snd p)) opt_compareops = true.
 Proof. vm_compute. reflexivity. Qed.
+Theorem C15_table_terminators :
+  forallb (fun tg => is_term_ref (Nd tg [])) opt_terminators = true.
+Proof. vm_compute. reflexivity. Qed.
+Theorem C15_table_expr_droppable :
+  forallb (fun tg => is_bare (Nd T_Expr [Nd tg []])) opt_expr_droppable = true.
+Proof. vm_compute. reflexivity. Qed.
+
+(** Verified translation validation: every (before, after) pair the checker accepts is in
+    the [allowed] relation (the five permitted kinds of change, closed under contexts,
+    with the `global` scoping discipline) -- for all trees. *)
+Theorem C15_check_sound : forall b a, check b a = true -> allowed b a.
+Proof. exact Sound.check_sound. Qed.
+
+(** Semantic preservation on the first-order Python subset the generator emits for the C01
+    core: the optimised statements yield the same frame and effect trace whenever the
+    unoptimised ones run, so C01's compile-correctness holds for optimised code. *)
+Theorem C15_stmt_rewrites_preserve : forall l F F' t,
+  Verif.C01.Py.exec F l = Some (F', t) -> Verif.C01.Py.exec F (Sem.opt_stmts l) = Some (F', t).
+Proof. exact Sem.opt_stmts_preserves. Qed.
+Theorem C15_optimized_compile_correct_partial : forall e v tr,
+  Verif.C01.Lisp.eval (fun _ => None) e = Some (v, tr) -> Verif.C01.Gen.hazard_free e = true ->
+  Sem.run_opt e = Some (v, tr).
+Proof. exact Sem.optimized_compile_correct. Qed.
+
+(** REFUTED clauses: the model of the pass (tied to the code by the correspondence run)
+    performs rewrites that are not allowed. *)
+Theorem C15_is_to_eq_not_allowed : ~ allowed Refuted.w_is (Opt.opt Refuted.w_is).
+Proof. exact Refuted.is_to_eq_not_allowed. Qed.
+Theorem C15_contains_swap_not_allowed : ~ allowed Refuted.w_contains (Opt.opt Refuted.w_contains).
+Proof. exact Refuted.contains_swap_not_allowed. Qed.
+Theorem C15_async_global_not_allowed : check Refuted.w_async (Opt.opt Refuted.w_async) = false /\ tag1 Refuted.w_async = 4.
+Proof. exact Refuted.async_global_rejected. Qed.
+Theorem C15_dead_global_not_allowed : check Refuted.w_dead (Opt.opt Refuted.w_dead) = false /\ tag1 Refuted.w_dead = 8.
+Proof. exact Refuted.dead_global_rejected. Qed.
+Example C15_accepted_sample : check Refuted.w_ok (Opt.opt Refuted.w_ok) = true /\ tree_eqb Refuted.w_ok (Opt.opt Refuted.w_ok) = false.
+Proof. exact Refuted.accepted_sample. Qed.
+
 Print Assumptions C15_table_binops.
 Print Assumptions C15_table_unaryops.
 Print Assumptions C15_table_compareops.
+Print Assumptions C15_table_terminators.
+Print Assumptions C15_table_expr_droppable.
+Print Assumptions C15_check_sound.
+Print Assumptions C15_stmt_rewrites_preserve.
+Print Assumptions C15_optimized_compile_correct_partial.
+Print Assumptions C15_is_to_eq_not_allowed.
+Print Assumptions C15_contains_swap_not_allowed.
+Print Assumptions C15_async_global_not_allowed.
+Print Assumptions C15_dead_global_not_allowed.
+Print Assumptions C15_accepted_sample.
